@@ -5,6 +5,7 @@ import (
 	"fmt"
 	"io"
 	"os"
+	"path"
 	"path/filepath"
 	"strings"
 
@@ -102,4 +103,20 @@ func FsPath(path string, flags FsFlags) (afero.Fs, error) {
 	}
 
 	return afero.NewBasePathFs(afero.NewOsFs(), path), nil
+}
+
+// removeEmptyParents removes the directories between a deleted object and
+// root (exclusive) that the deletion left empty. Such directories only exist
+// to hold keys containing '/'; left behind they would be listed as common
+// prefixes and would keep a bucket from being deleted as empty.
+func removeEmptyParents(fs afero.Fs, objectPath string, root string) {
+	for dir := path.Dir(objectPath); dir != root && dir != "." && dir != "/"; dir = path.Dir(dir) {
+		entries, err := afero.ReadDir(fs, filepath.FromSlash(dir))
+		if err != nil || len(entries) > 0 {
+			return
+		}
+		if err := fs.Remove(filepath.FromSlash(dir)); err != nil {
+			return
+		}
+	}
 }
